@@ -692,8 +692,11 @@ func (fr *frame) absorbConditional(st, sub *State, guard *Term) {
 		st.alloc = Ite(guard, sub.alloc, st.alloc)
 	}
 	for k, v := range sub.vars {
-		if _, ok := st.vars[k]; !ok {
+		if old, ok := st.vars[k]; !ok {
 			st.vars[k] = v // temporaries
+		} else if old != v {
+			// a local (e.g. a variable captured by the conditionally executed literal) was assigned
+			st.vars[k] = valueIte(guard, v, old)
 		}
 	}
 	if len(ex) > 0 {
